@@ -30,6 +30,7 @@ def gen_case(rng, tier):
     prof["multiblock"] = rng.random() < 0.2  # functions with several blocks (cf.br / cf.cond_br)
     prof["streams"] = rng.random() < 0.25  # dart streaming regions on snax_xdma (DM for extension kernels) / snax_alu (compute)
     prof["while_loops"] = rng.choice([0, 0, 0.4])  # counted loops written as scf.while
+    prof["index_tables"] = rng.choice([0, 0, 0.2])  # copies of index-typed tables
     prof["stream_forms"] = rng.random() < 0.5  # ... unscheduled, scheduled or after layout resolution (dart.operation / schedule / access_pattern)
     prof["exec_region"] = rng.choice([0, 0, 0.3])
     prof["helper"] = rng.random() < 0.12 and not prof["multiblock"] and not prof.get("views")  # a private helper function with a body  # scf.execute_region with cf branches among the conditionals
